@@ -6,13 +6,152 @@ import (
 	"golang.org/x/tools/go/ssa"
 )
 
-// Pure-call merging: placeholder.
+// Pure-call merging: a call to a side-effect-free function (listed per check) is explored locally —
+// every control-flow path through it — and its scalar results are merged into one ite term, so the
+// caller does not fork once per callee path. No solver queries are needed: infeasible callee paths
+// only contribute ite branches under unsatisfiable guards. If anything unexpected happens (panic,
+// nondet, assume/assert, non-mergeable results, too many paths) the engine falls back to ordinary
+// forking execution of the call.
 
-type mergeCtx struct{}
+type mergeCtx struct {
+	prefix []bool
+	pos    int
+	conds  []*Term
+	decs   []bool
+}
+
 type mergeAbort struct{ reason string }
 
-func (in *Interp) mergeDecide(c *Term) bool { panic(mergeAbort{"not built"}) }
+const mergeMaxPaths = 128
+const mergeMaxDepth = 24
 
-func (in *Interp) mergeCall(caller *frame, pos token.Pos, fn *ssa.Function, args []Value, env []Value) (Value, bool) {
+func (in *Interp) mergeDecide(c *Term) bool {
+	ctx := in.path.merge
+	var taken bool
+	if ctx.pos < len(ctx.prefix) {
+		taken = ctx.prefix[ctx.pos]
+	} else {
+		if len(ctx.decs) >= mergeMaxDepth {
+			panic(mergeAbort{"depth"})
+		}
+		taken = true
+	}
+	ctx.pos++
+	ctx.decs = append(ctx.decs, taken)
+	if taken {
+		ctx.conds = append(ctx.conds, c)
+	} else {
+		ctx.conds = append(ctx.conds, Not(c))
+	}
+	return taken
+}
+
+type mergeResult struct {
+	cond *Term
+	val  Value
+}
+
+func (in *Interp) mergeCall(caller *frame, pos token.Pos, fn *ssa.Function, args []Value, env []Value) (res Value, ok bool) {
+	p := in.path
+	savedInstr := p.ninstr
+	var results []mergeResult
+	stack := [][]bool{{}}
+	aborted := false
+	for len(stack) > 0 && !aborted {
+		prefix := stack[len(stack)-1]
+		stack = stack[:len(stack)-1]
+		ctx := &mergeCtx{prefix: prefix}
+		p.merge = ctx
+		depth := in.depth
+		var v Value
+		func() {
+			defer func() {
+				p.merge = nil
+				in.depth = depth
+				if r := recover(); r != nil {
+					switch r.(type) {
+					case mergeAbort, targetPanic:
+						aborted = true
+					default:
+						panic(r)
+					}
+				}
+			}()
+			v = in.callSSA(caller, pos, fn, args, env)
+		}()
+		if aborted {
+			break
+		}
+		// siblings: flip each decision made beyond the prefix
+		for i := len(prefix); i < len(ctx.decs); i++ {
+			sib := make([]bool, i+1)
+			copy(sib, ctx.decs[:i])
+			sib[i] = !ctx.decs[i]
+			stack = append(stack, sib)
+		}
+		results = append(results, mergeResult{AndN(ctx.conds...), v})
+		if len(results)+len(stack) > mergeMaxPaths {
+			aborted = true
+		}
+	}
+	if aborted {
+		p.ninstr = savedInstr
+		return nil, false
+	}
+	r := results[len(results)-1].val
+	for i := len(results) - 2; i >= 0; i-- {
+		m, ok := mergeVals(results[i].cond, results[i].val, r)
+		if !ok {
+			p.ninstr = savedInstr
+			return nil, false
+		}
+		r = m
+	}
+	return r, true
+}
+
+func mergeVals(c *Term, a, b Value) (Value, bool) {
+	switch av := a.(type) {
+	case nil:
+		return nil, b == nil
+	case *Term:
+		bv, ok := b.(*Term)
+		if !ok || av.sort != bv.sort {
+			return nil, false
+		}
+		return Ite(c, av, bv), true
+	case string:
+		bv, ok := b.(string)
+		if ok && av == bv {
+			return av, true
+		}
+		return nil, false
+	case Tuple:
+		bv, ok := b.(Tuple)
+		if !ok || len(av) != len(bv) {
+			return nil, false
+		}
+		out := make(Tuple, len(av))
+		for i := range av {
+			m, ok := mergeVals(c, av[i], bv[i])
+			if !ok {
+				return nil, false
+			}
+			out[i] = m
+		}
+		return out, true
+	case *Value:
+		bv, ok := b.(*Value)
+		if ok && av == bv {
+			return av, true
+		}
+		return nil, false
+	case Iface:
+		bv, ok := b.(Iface)
+		if ok && av.t == nil && bv.t == nil {
+			return av, true
+		}
+		return nil, false
+	}
 	return nil, false
 }
